@@ -99,7 +99,15 @@ func (fr *Frame) callWith(st *State, instr ssa.Instruction, c *ssa.CallCommon, f
 	if o := callee.Origin(); o != nil {
 		origin = o
 	}
-	if sp, ok := trusted[origin.String()]; ok {
+	if fr.declaredNoEffect(calleeName) {
+		u.callsNoEffect[calleeName] = true
+		u.note("call of %s in %s: declared noeffect (assumed not to modify the modelled heap), result unconstrained", calleeName, fr.fn)
+		rs := fr.freshResults(sig, "noeff")
+		for _, r := range rs {
+			u.loadedFacts(st, r)
+		}
+		res = resultVal(u, sig, rs)
+	} else if sp, ok := trusted[origin.String()]; ok {
 		u.callsTrusted[calleeName] = true
 		res = sp(fr, st, full, instr)
 	} else if fc := u.cx.contractFor(callee); fc != nil && !fc.Inline && !(fr.top && origin == fr.fn && false) {
@@ -269,6 +277,21 @@ func (fr *Frame) afterCall(st *State, name string, res Val) {
 	top := fr.topFrame()
 	if top.fc == nil {
 		return
+	}
+	for _, c := range top.fc.AfterCalls {
+		if !matchCallee(c.Callee, name) {
+			continue
+		}
+		env := top.specEnv(st, top.entry)
+		rs := res.Tup
+		if rs == nil && res.T != "" {
+			rs = []Val{res}
+		}
+		for k, r := range rs {
+			env.vars[fmt.Sprintf("res%d", k)] = r
+		}
+		u.assumeG(st, env.trBool(c.E))
+		u.note("assumed about the result of %s in %s: %s", name, top.fn, c.Src)
 	}
 	// record called(...) / ret(...) ghosts for every pattern mentioned in the contract
 	for _, pat := range top.ghostPatterns() {
@@ -658,7 +681,20 @@ func (fr *Frame) callBuiltin(st *State, instr ssa.Instruction, b *ssa.Builtin, c
 		switch t := c.Args[0].Type().Underlying().(type) {
 		case *types.Map:
 			dom, _, ks, _ := u.mapHeaps(t)
-			u.heapSet(st, dom, sto(u.heapCur(st, dom), args[0].T, u.emptySet(ks)))
+			u.heapStoreAt(st, dom, args[0].T, u.emptySet(ks))
+			return Val{T: "false", S: "Bool"}
+		case *types.Slice:
+			h := u.arrHeap(t.Elem())
+			es := u.enc.sortOf(t.Elem())
+			hc := u.heapCur(st, h)
+			x := args[0]
+			oldRow := sel(hc, app("sl_base", x.T))
+			newRow := u.enc.freshConst("row", "(Array Int "+es+")")
+			j := fmt.Sprintf("j!%d", u.enc.fresh)
+			u.enc.fresh++
+			u.assume(fmt.Sprintf("(forall ((%s Int)) (! (= (select %s %s) (ite (and (<= (sl_off %s) %s) (< %s (+ (sl_off %s) (sl_len %s)))) %s (select %s %s))) :pattern ((select %s %s))))",
+				j, newRow, j, x.T, j, j, x.T, x.T, u.enc.zero(t.Elem()), oldRow, j, newRow, j))
+			u.heapStoreAt(st, h, app("sl_base", x.T), newRow)
 			return Val{T: "false", S: "Bool"}
 		}
 		u.unsup("clear of %s", c.Args[0].Type())
